@@ -13,15 +13,19 @@ PERM4 = [(a, b, c, d) for a in range(4) for b in range(4) for c in range(4) for 
 def replay_order(p):
     sys.stderr = io.StringIO()
     from dliswriter import DLISFile
-    perm_i, named_zone, named_channel, two_origins, nf_first_b = p['args'][:5]
+    perm_i, named_zone, named_channel, o_cfg, nf_first_b = p['args'][:5]
+    o_cfg = int(o_cfg)
+    two_origins = o_cfg >= 1
+    sn1 = 'OS' if o_cfg in (2, 4) else None
+    sn2 = 'OS' if o_cfg in (3, 4) else None
     df = DLISFile()
     lf = df.add_logical_file(fh_id='LF0')
     made = {}
 
     def op_origin():
-        lf.add_origin('O1', file_set_number=7, creation_time='2020/01/01 00:00:00')
+        lf.add_origin('O1', file_set_number=7, creation_time='2020/01/01 00:00:00', set_name=sn1)
         if two_origins:
-            lf.add_origin('O2', file_set_number=7, creation_time='2020/01/01 00:00:00')
+            lf.add_origin('O2', file_set_number=7, creation_time='2020/01/01 00:00:00', set_name=sn2)
 
     def op_chan_frame():
         ch = lf.add_channel('CH', data=np.arange(2, dtype=np.float64), set_name='CS' if named_channel else None)
